@@ -67,16 +67,21 @@ CLAIMED = {
         technique='contract-based deductive verification (CBMC dfcc contracts with ghost permutation)'),
     'C05': dict(
         category='proof',
-        text='All thirteen LocalLinearization members (direction, distance, angle, azimuth, s_distance, z_angle, h_diff, x, y, z, xdiff, ydiff, '
-             'zdiff) with the getters they call, both bearing_distance overloads and PointData::xNorthAngle are extracted and put under contract; '
-             'libm enters as SYMBOLS (S = sin s, C = cos s, d = sqrt(..), atan2/acos values chosen by the harness, arguments recorded). Per function: '
-             '(structure, SAT) size and the index set are exactly the free coordinates / orientation the observable depends on, each once; unknown '
-             'indices are assigned on first use, consecutively above maxn, assigned ones are left alone; frame; the two reduction loops terminate and '
-             'land in the half-open range [-200, 200) gon for misclosures up to 3 circles; (values, cvc5) every coefficient and the right-hand side are '
-             'IDENTICAL as floating-point terms to the hand-derived partial derivative / misclosure written over S, C, d, dz (sign, scale 10*R2G/d, mm/cc '
-             'units, second-face zenith readings negated), and sqrt/atan2/acos receive dy^2+dx^2, (dy,dx), dz/sd. Bounded (labelled): one concrete geometry per '
-             'type evaluated through the extracted code. That libm computes the mathematical functions, LocalNetwork::project_equations and the '
-             'TestLinearization second computation are not decided.',
+        text='All thirteen LocalLinearization members (direction, distance, angle, azimuth, s_distance, z_angle, h_diff, x, y, z, xdiff, '
+             'ydiff, zdiff) with the getters they call, both bearing_distance overloads and PointData::xNorthAngle are extracted and put '
+             'under contract; libm enters as SYMBOLS (S = sin s, C = cos s, d = sqrt(..), atan2/acos values chosen by the harness, '
+             'arguments recorded). Per function: (structure, SAT) size and the index set are exactly the free coordinates / orientation the '
+             'observable depends on, each once; unknown indices are assigned on first use, consecutively above maxn, assigned ones are left '
+             'alone; frame; the two reduction loops terminate and land in the half-open range [-200, 200) gon for misclosures up to 3 '
+             'circles; (values, cvc5) every coefficient and the right-hand side are IDENTICAL as floating-point terms to the hand-derived '
+             'partial derivative / misclosure written over S, C, d, dz (sign, scale 10*R2G/d, mm/cc units, second-face zenith readings '
+             'negated), and sqrt/atan2/acos receive dy^2+dx^2, (dy,dx), dz/sd. Bounded (labelled): one concrete geometry per type evaluated '
+             'through the extracted code. LocalNetwork::project_equations (unit project_equations): before every formation all indices of '
+             'every active point and every orientation are reset to 0, so that -- composed with one real linearisation step from arbitrary '
+             'stale indices -- a row never uses a stale column; the unknowns_ table gets, for every non-zero index, the entry of the '
+             'coordinate that holds it (each write in range, also for points with only one plane index); refine_approx_coordinates adds to '
+             'each coordinate the correction of ITS OWN unknown. That libm computes the mathematical functions, that every map/list element '
+             'is visited (by reading), and the TestLinearization second computation are not decided.',
         design_ref='DESIGN.md 5 (C05)',
         note=TRUST + '; cvc5 1.0 for the value identities (SAT back ends cannot equate two multiplier circuits); sin, cos, sqrt, atan2, acos are uninterpreted symbols with |S|,|C| <= 1, d >= 0, atan2 in [-pi, pi]; the PointData map is a three-element array of points',
         technique='contract-based deductive verification (CBMC dfcc function + loop contracts on the extracted linearisation code; hand-derived Jacobian as postcondition)'),
